@@ -89,6 +89,15 @@ def make_case(chk, rng, i):
     g = gen.Gen(rng, p)
     case = g.make_case(rng.u64() & util.M32)
     rules = case["rules"]
+    if i % 3 == 1:
+        # a trailing-context rule with a fixed-length head and a variable-length trail, placed
+        # after a rule with a closure: flex may use the REJECT machinery (and give up exact
+        # warnings) only for rules whose head AND trail are variable
+        rules.append({"scs": None, "bol": False,
+                      "pat": ("cat", [("chr", rng.choice(b"#%")), ("chr", rng.choice(b"ab"))]),
+                      "trail": ("plus", ("ccl", False, [("r", 48, 57)])), "act": []})
+        rules.insert(0, {"scs": None, "bol": False, "pat": ("plus", ("chr", rng.choice(b"xy"))),
+                         "trail": None, "act": []})
     # shadowed rules
     for k in range(rng.rint(1, 4)):
         src = rng.choice(rules)
